@@ -1,10 +1,13 @@
 package main
 
 import (
+	"errors"
 	"fmt"
 	"io/fs"
 	"os"
 	"path/filepath"
+	"strings"
+	"syscall"
 
 	"github.com/avfs/avfs"
 )
@@ -201,4 +204,120 @@ func portableClass(kind string) string {
 	}
 
 	return kind
+}
+
+// Portable error classes.
+//
+// General lesson: "the call fails on both types" is not yet an answer a
+// portable caller can use. What a caller written once for both OS types does
+// with a failure is ask for its CLASS — errors.Is(err, fs.ErrNotExist /
+// fs.ErrExist / fs.ErrPermission), avfs.IsNotExist, avfs.IsExist — and branch
+// (Exists, DirExists, IsEmpty, MkdirTemp's retry loop, MkdirAll-like code of
+// users). The class is a function of the error VALUE coded in the value type's
+// Is method, one switch per OS type, and a value dropped from one switch is
+// invisible as long as failures are compared as nil / non-nil or by the
+// number of the value. So the class is part of the compared answer of every
+// failing call:
+//
+//  1. per side ("returns Windows error values", "keeps POSIX behaviour"): the
+//     value has the class the same errno has on the OS it stands for — on the
+//     Linux type the class of syscall.Errno(n) on this (Linux) host, on the
+//     Windows type the table of syscall.Errno.Is of GOOS=windows
+//     ($GOROOT/src/syscall/syscall_windows.go), winClass below;
+//  2. pairwise: a failure that is in a class on the Linux type is in the same
+//     class on the Windows type, unless an `OSType() == OsWindows` branch in the
+//     body of the call (callCompat) states another value. The converse is not
+//     demanded: Errors.SetOSType maps ENOTDIR to ErrWinPathNotFound and EBADF
+//     to ErrWinAccessDenied, which have a class where the Linux value has none
+//     (what Windows itself answers; rule 1 judges that side).
+//
+// and the helpers of the root package that branch on the class are calls of
+// the alphabet (classHelperOps, pair.go), where the difference is one of
+// success or failure.
+var portableTargets = []struct {
+	name   string
+	target error
+}{
+	{"notexist", fs.ErrNotExist},
+	{"exist", fs.ErrExist},
+	{"permission", fs.ErrPermission},
+}
+
+// errClass names the portable classes err is in ("" = none; several are joined
+// by "+"). avfs.IsNotExist / avfs.IsExist are asked too: an answer that differs
+// from errors.Is is marked.
+func errClass(err error) string {
+	if err == nil {
+		return ""
+	}
+
+	var cl []string
+
+	for _, t := range portableTargets {
+		is := errors.Is(err, t.target)
+		if is {
+			cl = append(cl, t.name)
+		}
+
+		switch t.name {
+		case "notexist":
+			if avfs.IsNotExist(err) != is {
+				cl = append(cl, "IsNotExist-differs")
+			}
+		case "exist":
+			if avfs.IsExist(err) != is {
+				cl = append(cl, "IsExist-differs")
+			}
+		}
+	}
+
+	return strings.Join(cl, "+")
+}
+
+// winClass: the classes of the Windows error numbers, syscall.Errno.Is of
+// GOOS=windows (ERROR_FILE_NOT_FOUND 2, ERROR_PATH_NOT_FOUND 3,
+// ERROR_BAD_NETPATH 53; ERROR_ACCESS_DENIED 5; ERROR_FILE_EXISTS 80,
+// ERROR_DIR_NOT_EMPTY 145, ERROR_ALREADY_EXISTS 183).
+var winClass = map[uintptr]string{
+	2: "notexist", 3: "notexist", 53: "notexist",
+	5:  "permission",
+	80: "exist", 145: "exist", 183: "exist",
+}
+
+// wantClass is the class the innermost value of err has on the OS its type
+// stands for; ok is false for values that are not an errno of either OS
+// (CustomError, io/fs sentinels, a helper's own error): nothing to compare with.
+func wantClass(err error) (class string, ok bool) {
+	switch e := innerErr(err).(type) {
+	case avfs.LinuxError:
+		return errClass(syscall.Errno(e)), true
+	case avfs.WindowsError:
+		return winClass[uintptr(e)], true
+	}
+
+	return "", false
+}
+
+// classFindings judges the classes of a call that failed on both sides (see
+// "Portable error classes"): the "what" of every finding, kind error-class.
+func classFindings(call string, lr, wr result) (whats []string) {
+	if lr.HasWant && lr.Class != lr.Want {
+		whats = append(whats, fmt.Sprintf("Linux-typed instance: the value is in class %q for errors.Is, the errno is in %q on Linux", lr.Class, lr.Want))
+	}
+
+	if wr.HasWant && wr.Class != wr.Want {
+		whats = append(whats, fmt.Sprintf("Windows-typed instance: the value is in class %q for errors.Is, the errno is in %q on Windows", wr.Class, wr.Want))
+	}
+
+	if lr.Class != "" && lr.Class != wr.Class {
+		for _, w := range callCompat[call][lr.Kind] {
+			if w == wr.Kind {
+				return whats // another value by an OS branch of the call itself
+			}
+		}
+
+		whats = append(whats, fmt.Sprintf("the failure is in class %q on the Linux type and in %q on the Windows type", lr.Class, wr.Class))
+	}
+
+	return whats
 }
